@@ -9,6 +9,7 @@ import (
 	"sync"
 	"time"
 
+	"verif/internal/onto"
 	"verif/internal/prng"
 	"verif/internal/reg"
 	"verif/internal/verdict"
@@ -437,6 +438,14 @@ func newProp(P string, initial int) (reflect.Value, []kval, string) {
 	if initial == 0 {
 		return concrete(reflect.ValueOf(reg.PropCtors[P]).Call(nil)[0]), nil, ""
 	}
+	if strings.HasPrefix(P, "JSONLD") {
+		// a built-in property: from its constructor (every document has a
+		// 'type' of its own, so there is no empty decoded state)
+		if initial > 0 {
+			return reflect.Value{}, nil, "skip"
+		}
+		return concrete(reflect.ValueOf(reg.PropCtors[P]).Call(nil)[0]), nil, ""
+	}
 	host := hostType(P)
 	var list []interface{}
 	var model []kval
@@ -463,6 +472,9 @@ func (c *c18) runSeq(cs c18Case) {
 	r := c.r
 	r.Eval(1)
 	pv, model, why := newProp(cs.Prop, cs.Initial)
+	if why == "skip" {
+		return
+	}
 	if why != "" {
 		r.Violate(verdict.Sig{Rule: "C18.setup", Site: cs.Prop, Feature: why}, cs, why)
 		return
@@ -823,8 +835,12 @@ func runC18(id string) int {
 		}
 		*tier = "quick"
 	}
+	// the two built-in properties are generated by the same templates but
+	// belong to no vocabulary file: described here by hand
+	O.Props["JSONLDType"] = &onto.Prop{Name: "type", Vocab: "JSONLD", Functional: false, RangeLits: []string{"XMLSchemaAnyURI", "XMLSchemaString"}}
+	O.Props["JSONLDId"] = &onto.Prop{Name: "id", Vocab: "JSONLD", Functional: true, RangeLits: []string{"XMLSchemaAnyURI"}}
 	var nf, fn []string
-	for _, p := range O.PropKeys {
+	for _, p := range append(append([]string{}, O.PropKeys...), "JSONLDType", "JSONLDId") {
 		if reg.PropCtors[p] == nil {
 			continue
 		}
